@@ -179,8 +179,11 @@ fn expression_ends_with_prefix(expression: &Expression) -> bool {
         Expression::If(if_expression) => {
             expression_ends_with_prefix(if_expression.get_else_result())
         }
-        // infinite and NaN values are written `(1/0)`, `(-1/0)`, `(0/0)`
-        Expression::Number(number) => !number.compute_value().is_finite(),
+        // infinite and NaN values are written `(1/0)`, `(-1/0)`, `(0/0)`, unless the number
+        // still holds its original token (it is then written as it was in the code)
+        Expression::Number(number) => {
+            number.get_token().is_none() && !number.compute_value().is_finite()
+        }
         Expression::False(_)
         | Expression::Function(_)
         | Expression::Nil(_)
